@@ -171,3 +171,7 @@ def ss_raises(ctx, st, exc):
 
 UNITS.append(Unit("C02", "jsonargparse._typehints:sort_subtypes_for_union", ss_setup, ss_post, ss_raises, max_paths=20000,
                   trusted=["sorted(key=) is stable", "get_typehint_origin classifies list / dict hints"]))
+
+
+from contracts.any_units import adapt_classes_any_unit, is_action_value_list_unit  # noqa: E402
+UNITS += [adapt_classes_any_unit("C02"), is_action_value_list_unit("C02")]
